@@ -806,8 +806,8 @@ def checkUnusedDefines (opts : Opts) (d : Decls) : List String :=
     | none => some s!"unused define `{dv.1}`"
     | some _ => none
 
-/-- everything up to and including `match_all` -/
-def frontEnd (opts : Opts) (fs : SrcFiles) (roots : List (List Char)) : Except (List String) (Static × List AstNode × Defs) :=
+/-- everything before `match_all`: parsing with inclusion, declarations, `#if`, definitions -/
+def frontEndPre (opts : Opts) (fs : SrcFiles) (roots : List (List Char)) : Except (List String) (Decls × Defs × List AstNode) :=
   match parseMany fs roots with
   | .error e => .error [e]
   | .ok nodes =>
@@ -824,10 +824,31 @@ def frontEnd (opts : Opts) (fs : SrcFiles) (roots : List (List Char)) : Except (
         | .ok _ =>
           match defineRemaining d defs nodes with
           | .error e => .error [e]
-          | .ok (defs, nodes) =>
-            let (defs, rep) := matchAll opts d defs nodes
-            if !rep.isEmpty then .error rep
-            else .ok (⟨opts, d, roots.headD [], fs⟩, nodes, defs)
+          | .ok (defs, nodes) => .ok (d, defs, nodes)
+
+/-- everything up to and including `match_all` -/
+def frontEnd (opts : Opts) (fs : SrcFiles) (roots : List (List Char)) : Except (List String) (Static × List AstNode × Defs) :=
+  match frontEndPre opts fs roots with
+  | .error e => .error e
+  | .ok (d, defs, nodes) =>
+    let (defs, rep) := matchAll opts d defs nodes
+    if !rep.isEmpty then .error rep
+    else .ok (⟨opts, d, roots.headD [], fs⟩, nodes, defs)
+
+/-- For the attribution of differences between the two matcher settings: `(instructions whose match
+    lists differ, those among them with an ignorable token inside the leading literal)`. -/
+def matcherDiff (opts : Opts) (fs : SrcFiles) (roots : List (List Char)) : Except (List String) (Nat × Nat) :=
+  match frontEndPre opts fs roots with
+  | .error e => .error e
+  | .ok (_, defs, nodes) =>
+    .ok (nodes.foldl (fun (acc : Nat × Nat) n =>
+      match n with
+      | .instr src _ =>
+        let a := matchInstr true defs.ruledefs src
+        let b := matchInstr false defs.ruledefs src
+        let same := a.length == b.length && a.all (fun m => b.any (fun m' => m.isSame m')) && b.all (fun m => a.any (fun m' => m.isSame m'))
+        if same then acc else (acc.1 + 1, acc.2 + (if noBlankInLeadingLiteral src then 0 else 1))
+      | _ => acc) (0, 0))
 
 /-- **`asm::assemble`**: success with output, or the list of error messages (first = first reported) -/
 def assemble (opts : Opts) (fs : SrcFiles) (roots : List (List Char)) : Except (List String) AsmOk :=
